@@ -94,6 +94,13 @@ func (p *Parser) ParseFile(filename string, varPool *VarPool) (*MetaData, []*Bui
 		}
 	}
 
+	// A file that cannot hold a declaration - output of an earlier run, or a file that does not
+	// import kessoku at all - must not touch the variable pool shared by the invocation:
+	// `kessoku *.go` lists such files, and lists more of them on the second run.
+	if targetFile != nil && (isKessokuGeneratedFile(targetFile) || !importsPackage(targetFile, kessokuPkgPath)) {
+		return metaData, nil, nil
+	}
+
 	// Reserve the names of all injector functions that are (or will be) generated for this
 	// package. They are taken from the Inject declarations themselves and not from
 	// previously generated files, so that the result does not depend on whether an
@@ -200,6 +207,17 @@ func (p *Parser) ParseFile(filename string, varPool *VarPool) (*MetaData, []*Bui
 const generatedFileHeader = "// Code generated by kessoku. DO NOT EDIT."
 
 // isKessokuGeneratedFile reports whether f was written by kessoku itself.
+// importsPackage reports whether the file imports the package with the given path.
+func importsPackage(f *ast.File, path string) bool {
+	for _, imp := range f.Imports {
+		if p, err := strconv.Unquote(imp.Path.Value); err == nil && p == path {
+			return true
+		}
+	}
+
+	return false
+}
+
 func isKessokuGeneratedFile(f *ast.File) bool {
 	for _, group := range f.Comments {
 		if group.Pos() > f.Package {
